@@ -6,7 +6,7 @@ Next/Recycle concurrently, any client behaviour the documented contract allows, 
 for an arbitrary source script `P.src`, rewind script `P.rew` and capacity `P.cap`.
 The invariant and its preservation proofs live in DmlcModel/TIter/Inv*.lean.
 -/
-import DmlcModel.TIter.Corollaries
+import DmlcModel.TIter.Progress
 
 namespace DmlcModel.Props.C07
 open DmlcModel DmlcModel.TIter DmlcModel.Gen.TIter
@@ -119,13 +119,44 @@ theorem C07_deadlock_free (hn : NoFail P) (hcap : 1 ≤ P.cap) (h : Reachable P 
     ∃ e : Event, e.isProgress = true ∧ (step P s e).isSome = true :=
   deadlock_free_of_inv hcap (inv_reachable h).a (inv_reachable h).b (invD_reachable_noFail hn h) hc
 
-/-- full statement of progress (every call returns): once no further calls are started there is no infinite
-sequence of progress events, so by `C07_deadlock_free` every call in progress runs to its return.
-NOT proved (listed under `partial` in tools/props/C07.py); what is proved is deadlock freedom in every
-reachable state. -/
+/-- statement of progress: once no further calls are started there is no infinite sequence of progress events
+(transitions other than spurious wake-ups and call starts) -/
 def C07_progress_statement (P : Params) : Prop :=
   NoFail P → 1 ≤ P.cap → ∀ s, Reachable P s → inCall s →
     ¬ ∃ f : Nat → State, f 0 = s ∧ ∀ n, ∃ e : Event, e.isProgress = true ∧ step P (f n) e = some (f (n + 1))
+
+/-- the progress relation is well-founded: a lexicographic measure of five natural numbers (DmlcModel/TIter/Measure.lean:
+pending rewind, produce callbacks the producer can still run, notify_ones still to come, the producer's location,
+the consumers' locations) decreases with every progress event -- any scripts, pinned and repaired code -/
+theorem C07_progress_wf (P : Params) : WellFounded (ProgStep P) := progStep_wf P
+
+theorem C07_progress (P : Params) : C07_progress_statement P :=
+  fun _ _ _ hr _ => no_infinite_progress hr
+
+/-- a state in which no progress event is enabled has no call in progress: every started call has returned -/
+theorem C07_quiescent_returned (hn : NoFail P) (hcap : 1 ≤ P.cap) (h : Reachable P s)
+    (hq : ∀ e : Event, e.isProgress = true → step P s e = none) : busy s = 0 ∧ s.xloc = .idle := by
+  have hnc : ¬ inCall s := by
+    intro hc
+    obtain ⟨e, hp, hs⟩ := C07_deadlock_free hn hcap h hc
+    rw [hq e hp] at hs
+    cases hs
+  unfold inCall at hnc
+  constructor
+  · omega
+  · cases hx : s.xloc <;> simp_all
+
+/-- every call returns: from any reachable state every execution of the calls in progress (progress events only,
+any schedule of them) is finite (`C07_progress`), and when it cannot be extended every started call -- Next, Recycle,
+Next()/Value(), BeforeFirst, Destroy -- has returned; such an execution exists -/
+theorem C07_every_call_returns (hn : NoFail P) (hcap : 1 ≤ P.cap) (h : Reachable P s) :
+    (∀ t, ProgSteps P s t → (∀ e : Event, e.isProgress = true → step P t e = none) → busy t = 0 ∧ t.xloc = .idle) ∧
+    (∃ t, ProgSteps P s t ∧ busy t = 0 ∧ t.xloc = .idle) := by
+  constructor
+  · intro t ht hq
+    exact C07_quiescent_returned hn hcap (progSteps_reachable h ht) hq
+  · obtain ⟨t, ht, hq⟩ := exists_maximal h
+    exact ⟨t, ht, C07_quiescent_returned hn hcap (progSteps_reachable h ht) hq⟩
 
 /-- scripts that never fail never set the failure flags (used by C10) -/
 theorem C07_no_failure (hn : NoFail P) (h : Reachable P s) : s.thrown = false ∧ s.exc = false := noThrow hn h
